@@ -156,6 +156,9 @@ def frame_menu(client):
         M["P:%d" % sid] = [wire.priority(sid, 0, 3, False)]
     for par, pro in ((1, 2), (1, 4), (2, 4), (3, 2), (3, 4)):
         M["PP:%d:%d" % (par, pro)] = [wire.push_promise(par, pro, sb(H.REQ))]
+    # frames that carry no part of a message and must not change what may follow: ALTSVC on a stream, an unknown frame type
+    M["A:1"] = [wire.altsvc(1, b"", b'h2=":443"')]
+    M["U:1"] = [wire.raw(0x42, 0, 1, b"xyz")]
     return M
 
 
